@@ -342,6 +342,42 @@ func (p *pkg) lastArgOfCallWith(fn, marker string) string {
 	return res
 }
 
+// stringArgOfCall: the single string literal passed (position 0) to the only call of `callee` inside
+// package-level func fn; dies when there is none, more than one, or the argument is not a literal.
+func (p *pkg) stringArgOfCall(fn, callee string) string {
+	var out []string
+	ast.Inspect(p.funcDeclRecv(fn, "").Body, func(n ast.Node) bool {
+		c, ok := n.(*ast.CallExpr)
+		if !ok || len(c.Args) == 0 {
+			return true
+		}
+		name := ""
+		switch f := c.Fun.(type) {
+		case *ast.Ident:
+			name = f.Name
+		case *ast.SelectorExpr:
+			name = f.Sel.Name
+		}
+		if name != callee {
+			return true
+		}
+		lit, ok := c.Args[0].(*ast.BasicLit)
+		if !ok || lit.Kind != token.STRING {
+			die("argument of %s in %s is not a string literal", callee, fn)
+		}
+		v, err := strconv.Unquote(lit.Value)
+		if err != nil {
+			die("%v", err)
+		}
+		out = append(out, v)
+		return true
+	})
+	if len(out) != 1 {
+		die("%d calls of %s in %s", len(out), callee, fn)
+	}
+	return out[0]
+}
+
 // boolArgOfCalls: for every call of `callee` (last selector or identifier name) inside method fn of
 // recv, the boolean literal passed at position idx; dies when an argument is not a literal.
 func (p *pkg) boolArgOfCalls(fn, recv, callee string, idx int) []bool {
@@ -782,6 +818,11 @@ func main() {
 			die("ParseConfigLines sets OnlySafeKeys to %q", v)
 		}
 		return "def lfsconfigReaderFlags : List Bool := [" + strings.Join(fl, ", ") + "]"
+	})
+	// the pattern with which tq.configureCustomAdapters recognises `lfs.customtransfer.<name>.path` keys:
+	// the consumer that turns a configuration key into a program to run
+	emit("customAdapterKeyPattern", func() string {
+		return "def customAdapterKeyPattern : Bytes := " + bytesLit(tq.stringArgOfCall("configureCustomAdapters", "MustCompile"))
 	})
 	// ---- commands/command_track.go (C19)
 	emit("trackEscapeStrings", func() string { return "def trackEscapeStrings : List Bytes := " + bytesList(cmds.strs("trackEscapeStrings")) })
